@@ -5,7 +5,7 @@ Parallel form of run_seeds.py.  Every worker gets a private copy of /verif (with
 /tmp/vseed_<pid>_<k>, so the Generated/*.lean files one trial rewrites are never seen by another, and a scratch git worktree
 of /repo per seed (DADI_REPO).  Results are merged into /verif/seeded/RESULTS.json (committed).  Nothing under /verif
 except RESULTS.json is written: evidence files of the trials stay in the private copies and are deleted with them."""
-import os, sys, json, subprocess, shutil, time
+import os, sys, json, subprocess, shutil, time, fcntl
 from concurrent.futures import ThreadPoolExecutor
 import threading
 
@@ -31,6 +31,13 @@ def main():
     ids = [a for a in args if not a.startswith('--')] or allids
     rpath = os.path.join(sdir, 'RESULTS.json')
     results = json.load(open(rpath)) if os.path.exists(rpath) else {}
+    def save(upd):
+        # several runners (one per strengthening task) may write concurrently: merge under a file lock
+        with open(rpath + '.lock', 'w') as lk:
+            fcntl.flock(lk, fcntl.LOCK_EX)
+            cur = json.load(open(rpath)) if os.path.exists(rpath) else {}
+            cur.update(upd)
+            json.dump(cur, open(rpath, 'w'), indent=1, sort_keys=True)
     copies = []
     for k in range(min(J, len(ids))):
         c = '/tmp/vseed_%d_%d' % (os.getpid(), k)
@@ -54,7 +61,7 @@ def main():
                 print(sid, 'patch does not apply:', o2[:300], flush=True)
                 with lock:
                     sh('git -C /repo worktree remove --force %s' % wt)
-                    results[sid] = dict(property=prop, detected=None, note='patch does not apply to the current tree: ' + o2[:200])
+                    save({sid: dict(property=prop, detected=None, note='patch does not apply to the current tree: ' + o2[:200])})
                 return
             env = dict(os.environ); env['DADI_REPO'] = wt
             try:
@@ -81,7 +88,7 @@ def main():
                 r['tail'] = out[-600:]
             with lock:
                 results[sid] = r
-                json.dump(results, open(rpath, 'w'), indent=1, sort_keys=True)
+                save({sid: r})
             print(sid, prop, 'DETECTED' if viol else ('MISSED' if rc == 0 else 'INFRA rc=%d' % rc), layers, '%.0fs' % (time.time() - t0), flush=True)
         finally:
             with lock:
@@ -89,7 +96,6 @@ def main():
 
     with ThreadPoolExecutor(max_workers=len(copies)) as ex:
         list(ex.map(one, ids))
-    json.dump(results, open(rpath, 'w'), indent=1, sort_keys=True)
     for c in copies:
         shutil.rmtree(c, ignore_errors=True)
     return 0
